@@ -20,6 +20,24 @@ CLAIMED = {
             "Bounded: type parameters of the encoder harnesses are small concrete instances; allocation-proportional arguments of the "
             "length-accessor harnesses are bounded by 2^24. DP budget constructors (BigUint rationals) and verify_init argument checks "
             "are outside. Trusted: Kani/CBMC/CaDiCaL, rustc MIR.", "DESIGN.md §4 C16", False),
+    "C07": ("bounded symbolic model checking (Kani/CBMC) of decoders/encoders on fully symbolic byte strings and values (decode contract + encode contract per message type)",
+            "For each covered message type and small concrete instance, the decoder is run on *every* byte string of the honest length (and of the honest "
+            "length +-1): it accepts exactly the strings whose elements are canonical, its fields equal the primitive decoders applied to the corresponding "
+            "slices in wire order, trailing and missing bytes are refused, and encoded_len() of the result equals the input length (contract D); the encoder is "
+            "run on every value: its output is the concatenation of the primitive encodings in wire order and has the advertised length (contract E). "
+            "Primitive codecs (u8..u64, Seed, length-prefixed vectors, field elements incl. the non-canonical >= p cases of all four shipped fields) are decided "
+            "as full round trips. decode(encode(v)) = v and encode(decode(b)) = b follow from D, E and the primitive round trips.",
+            "Covered: integers, Seed<16/32>, u8/u16/u32-prefixed vectors, field elements (FieldPrio2/64/128/255 accept sets; Field8/16 full round trip), Prio3 "
+            "public share, input share (leader/helper), verifier share, verifier message, verify state, output/aggregate share over GF(17) instances (Count; SumVec(1,2,2)), "
+            "PingPongMessage, PingPongContinuation (C12 toy VDAF). Not covered: bitvec-based types (Poplar1AggregationParam, IdpfPublicShare), Poplar1 and Prio2 messages "
+            "unless listed in the evidence, larger instances. The final composition step (D + E => round trip) is an argument, not a solver query.",
+            "DESIGN.md §4 C07/C08", False),
+    "C08": ("bounded symbolic model checking (Kani/CBMC): every decoder run on every byte string of each length in a partition of the input space",
+            "The same harness family as C07, read for totality: for every covered decoder and every byte string of the stated lengths (honest, honest+-1, and the "
+            "header-partitioned instances in which a length prefix or tag is symbolic over its whole inadmissible range incl. 0xFFFFFFFF and usize::MAX) CBMC proves "
+            "that the call returns Ok or Err - no panic, no arithmetic overflow, no out-of-bounds slice, no unwrap failure - and that inadmissible prefixes are refused before any read loop.",
+            "Bounded lengths (<= 65 bytes) and small instances; allocation proportionality is implied only through 'prefix > remaining input is refused before "
+            "allocation'; decoders that take element counts from the wire inside bitvec-based types are not covered.", "DESIGN.md §4 C07/C08", False),
     "C09": ("bounded symbolic model checking (Kani/CBMC) of the generic field arithmetic: exhaustive at 8/16-bit word sizes, full-width add/sub/neg/reducedness and decoding accept sets",
             "The crate's generic arithmetic (fp::ops, make_field!) is decided for every operand pair at 8-bit word sizes against `%` (add, sub, neg, "
             "Montgomery mul, montgomery/residue, pow, inv; primes 17 and 251), at 16 bit against an independent reference REDC, and at the shipped "
@@ -35,6 +53,14 @@ CLAIMED = {
             "evaluation points include the interpolation nodes; size errors for every size value.",
             "Field = GF(17) (hook instantiation of the unchanged generic code), sizes <= 16, sparse inputs above n = 4 (stated bound, not a linearity proof). "
             "The SizeTooLarge limits (2^19/2^20) are outside Kani's reach and are not claimed here.", "DESIGN.md §4 C10", True),
+    "C12": ("bounded symbolic model checking (Kani/CBMC) of the generic ping-pong routines instantiated with an order-sensitive instrumented VDAF",
+            "One step of leader_continued/helper_continued from an arbitrary host state (rounds 1..3, any round, both roles) under an arbitrary inbound message "
+            "(every kind, every payload byte, wrong payload lengths) is compared with the draft's ping_pong_continued written independently: Initialize refused, "
+            "output share only for (Finish, Finish), kind mismatches and undecodable payloads refused, shares reach the combiner as [leader, helper] for both roles. "
+            "helper_initialized accepts only Initialize; evaluate() equals ping_pong_transition; decode(encode(continuation)).evaluate() equals the original, twice; "
+            "finished continuations cannot be encoded; complete 1- and 2-round (thorough: 3-round) exchanges with persistence at every step end with the broadcast outputs.",
+            "The VDAF is a harness-defined toy (1-byte shares) implementing the public Aggregator trait; rounds <= 3; Prio3/Poplar1 as the VDAF are outside (their verify "
+            "steps hash). Replayed/duplicated messages are covered as 'arbitrary message against arbitrary state', not as multi-step histories.", "DESIGN.md §4 C12", True),
     "C13": ("bounded symbolic model checking (Kani/CBMC) of merge/accumulate/aggregate with arbitrary valid field representatives",
             "AggregateShare::{merge,accumulate} for Field64/Field128/FieldPrio2 (length-2 vectors, every element an arbitrary representative < p): commutative, "
             "associative, zero identity, accumulate = merge, element-wise sums; refusal on length mismatch leaves the accumulator bit-identical; the default "
